@@ -49,6 +49,27 @@ def check(N, mode, val, cases=False, shuffle=False):
         return problems or None
 
 
+def farmer_check(given, stored, resources):
+    """a crop made from a Runner: every stored kwargs dict is the setting plus the constants a direct run would use - those given with the
+    sowing (also falsy ones such as 0, '' or False) over the runner's stored constants over its resources"""
+    with tmpdir() as d, quiet():
+        r = xyz.Runner(fn, var_names=["x"], constants=stored, resources=resources)
+        crop = r.Crop(name="f", parent_dir=d, batchsize=2)
+        crop.sow_combos({"a": [1, 2, 3]}, constants=given)
+        want = {**resources, **stored, **given}
+        flat = [kw_ for f in sorted(glob.glob(os.path.join(crop.location, "batches", "xyz-batch-*.jbdmp"))) for kw_ in pickle.load(open(f, "rb"))]
+        direct = [dict(a=i, **want) for i in (1, 2, 3)]
+        key = lambda k: sorted(k.items(), key=repr)
+        if sorted(map(key, flat), key=repr) != sorted(map(key, direct), key=repr):
+            return [f"stored settings {flat} are not the direct-run kwargs {direct}"]
+    return None
+
+
+for given, stored, resources in (({"c": 0}, {"c": 5}, {}), ({"b": 0, "c": False}, {"b": 3}, {"c": 9}), ({"c": ""}, {}, {"c": "big"}), ({"b": 4}, {"c": 1}, {})):
+    pr = farmer_check(given, stored, resources)
+    if pr:
+        finish(True, input=dict(farmer="Runner", constants_given_when_sowing=given, runner_constants=stored, runner_resources=resources), observed=pr, tried=1)
+
 m = req.get("model") or {}
 hintN = model_int(m, "N")
 cands = []
